@@ -293,29 +293,29 @@ Inductive tstep (fixed : bool) (t : nat) (stamp : N) (cur : fvec) :
 
 Lemma step_shape fixed s t :
   step fixed s t = s \/
-  exists th stamp' cur' th' evs,
+  exists th stamp' cur' th' evs nf,
     g_thr s !! t = Some th /\
     tstep fixed t (g_stamp s) (g_cur s) th stamp' cur' th' evs /\
-    step fixed s t = MkG stamp' cur' (<[t := th']> (g_thr s)) (g_log s ++ evs).
+    step fixed s t = MkG stamp' cur' (<[t := th']> (g_thr s)) (g_log s ++ evs) nf.
 Proof.
   unfold step, set_thr. destruct (g_thr s !! t) as [[prog p]|] eqn:Et; [|left; reflexivity].
   cbn [t_prog t_pc]. destruct prog as [|o rest]; [left; reflexivity|]. right.
   destruct p as [|st snap sticky|snap].
   - destruct (is_writer o) eqn:Ew.
-    + eexists _, _, _, _, _. split; [reflexivity|]. split; [apply ts_call, Ew|reflexivity].
+    + eexists _, _, _, _, _, _. split; [reflexivity|]. split; [apply ts_call, Ew|reflexivity].
     + destruct o; try discriminate Ew.
-      * eexists _, _, _, _, _. split; [reflexivity|]. split; [apply ts_store|reflexivity].
-      * eexists _, _, _, _, _. split; [reflexivity|]. split; [apply ts_read; reflexivity|reflexivity].
-      * eexists _, _, _, _, _. split; [reflexivity|]. split; [apply ts_read; reflexivity|reflexivity].
-      * eexists _, _, _, _, _. split; [reflexivity|]. split; [apply ts_read; reflexivity|reflexivity].
-      * eexists _, _, _, _, _. split; [reflexivity|]. split; [apply ts_guard|reflexivity].
+      * eexists _, _, _, _, _, _. split; [reflexivity|]. split; [apply ts_store|reflexivity].
+      * eexists _, _, _, _, _, _. split; [reflexivity|]. split; [apply ts_read; reflexivity|reflexivity].
+      * eexists _, _, _, _, _, _. split; [reflexivity|]. split; [apply ts_read; reflexivity|reflexivity].
+      * eexists _, _, _, _, _, _. split; [reflexivity|]. split; [apply ts_read; reflexivity|reflexivity].
+      * eexists _, _, _, _, _, _. split; [reflexivity|]. split; [apply ts_guard|reflexivity].
   - destruct (closure fixed o sticky snap) as [new sticky'] eqn:Ec.
     destruct (N.eqb_spec st (g_stamp s)) as [->|Hne].
-    + eexists _, _, _, _, _. split; [reflexivity|]. split; [apply ts_cas_ok|].
+    + eexists _, _, _, _, _, _. split; [reflexivity|]. split; [apply ts_cas_ok|].
       rewrite Ec. reflexivity.
-    + eexists _, _, _, _, _. split; [reflexivity|]. split; [apply ts_cas_fail, Hne|].
+    + eexists _, _, _, _, _, _. split; [reflexivity|]. split; [apply ts_cas_fail, Hne|].
       rewrite Ec, app_nil_r. reflexivity.
-  - eexists _, _, _, _, _. split; [reflexivity|]. split; [apply ts_iterate|reflexivity].
+  - eexists _, _, _, _, _, _. split; [reflexivity|]. split; [apply ts_iterate|reflexivity].
 Qed.
 
 Lemma tstep_evs_thread fixed t stamp cur th stamp' cur' th' evs :
@@ -356,10 +356,10 @@ Definition pc_ok (stamp : N) (cur : fvec) (th : thread) : Prop :=
 Definition thr_inv (s : gstate) : Prop :=
   forall t th, g_thr s !! t = Some th -> pc_ok (g_stamp s) (g_cur s) th.
 
-Lemma thr_inv_update s t th' stamp' cur' log' :
+Lemma thr_inv_update s t th' stamp' cur' log' nf :
   thr_inv s -> (g_stamp s <= stamp')%N -> (stamp' = g_stamp s -> cur' = g_cur s) ->
   pc_ok stamp' cur' th' ->
-  thr_inv (MkG stamp' cur' (<[t := th']> (g_thr s)) log').
+  thr_inv (MkG stamp' cur' (<[t := th']> (g_thr s)) log' nf).
 Proof.
   intros Hinv Hle Heq Hnew t' th0 Hl. cbn [g_thr g_stamp g_cur] in *.
   apply list_lookup_insert_Some in Hl as [(-> & <- & _)|[_ Hl]]; [exact Hnew|].
@@ -387,7 +387,7 @@ Proof. intros H. eapply fv_legal_app; [exact H|]. cbn. auto. Qed.
 Lemma lin_inv_step init s t : lin_inv init s -> lin_inv init (step true s t).
 Proof.
   intros [Hleg Hthr].
-  destruct (step_shape true s t) as [->|(th & stamp' & cur' & th' & evs & Et & Hts & ->)]; [split; assumption|].
+  destruct (step_shape true s t) as [->|(th & stamp' & cur' & th' & evs & nf & Et & Hts & ->)]; [split; assumption|].
   pose proof (Hthr _ _ Et) as Hpc.
   destruct Hts as [o rest Hw|rest|n rest|o rest Hrd|o rest snap sticky|o rest st snap sticky Hne|o rest snap];
     unfold lin_inv; cbn [g_log g_cur]; rewrite ?lin_hist_app; cbn [lin_hist omap lin_of]; rewrite ?app_nil_r.
@@ -438,7 +438,7 @@ Definition wf_inv (s : gstate) : Prop :=
 Lemma wf_inv_step fixed s t : wf_inv s -> wf_inv (step fixed s t).
 Proof.
   intros [Hth Hlog].
-  destruct (step_shape fixed s t) as [->|(th & stamp' & cur' & th' & evs & Et & Hts & ->)]; [split; assumption|].
+  destruct (step_shape fixed s t) as [->|(th & stamp' & cur' & th' & evs & nf & Et & Hts & ->)]; [split; assumption|].
   pose proof (Hth _ _ Et) as Hwf.
   assert (Hupd : forall th'', Forall op_wf (t_prog th'') ->
             forall t0 th0, <[t := th'']> (g_thr s) !! t0 = Some th0 -> Forall op_wf (t_prog th0)).
@@ -478,7 +478,7 @@ Proof. rewrite fmap_app, concat_app. f_equal. Qed.
 Lemma log_inv_step fixed progs s t : log_inv progs s -> log_inv progs (step fixed s t).
 Proof.
   intros Hinv.
-  destruct (step_shape fixed s t) as [->|(th & stamp' & cur' & th' & evs & Et & Hts & ->)]; [assumption|].
+  destruct (step_shape fixed s t) as [->|(th & stamp' & cur' & th' & evs & nf & Et & Hts & ->)]; [assumption|].
   pose proof (tstep_evs_thread _ _ _ _ _ _ _ _ _ Hts) as Hevs.
   intros t0 th0 Hl. cbn [g_thr g_log] in *. rewrite thread_log_app.
   apply list_lookup_insert_Some in Hl as [(-> & <- & _)|[Hne Hl]].
@@ -507,7 +507,7 @@ Lemma exec_length fixed sched : forall s, length (g_thr (exec fixed sched s)) = 
 Proof.
   induction sched as [|t sched IH]; intros s; [reflexivity|]. cbn [exec fold_left]. 
   fold (exec fixed sched (step fixed s t)). rewrite IH.
-  destruct (step_shape fixed s t) as [->|(th & stamp' & cur' & th' & evs & _ & _ & ->)]; [reflexivity|].
+  destruct (step_shape fixed s t) as [->|(th & stamp' & cur' & th' & evs & nf & _ & _ & ->)]; [reflexivity|].
   cbn [g_thr]. apply insert_length.
 Qed.
 
